@@ -72,7 +72,7 @@ func argList(n int) (string, string) {
 	return strings.Join(ps, ", "), strings.Join(as, ", ")
 }
 
-const nMulti = 10
+const nMulti = 11
 
 func render(n *Node) string {
 	id := strconv.Itoa(n.ID)
@@ -166,6 +166,13 @@ func render(n *Node) string {
 		return "break"
 	case "continue":
 		return "continue"
+	case "recdefer":
+		// a warm-up call, then recursion: every invocation's deferred call runs once, with its own argument
+		warm := ""
+		if n.Var {
+			warm = "w" + id + "(0)\n"
+		}
+		return "func w" + id + "(n) {\ndefer pv(" + id + ", n)\nif n > 0 { w" + id + "(n - 1) }\np(" + strconv.Itoa(n.Val) + ")\n}\n" + warm + "w" + id + "(" + strconv.Itoa(n.N) + ")"
 	case "show-e":
 		return "pv(" + id + ", e)"
 	case "defer-loopvar":
@@ -201,6 +208,13 @@ func render(n *Node) string {
 			return pre + "func mr" + id + "() { return " + strings.Join(es, ", ") + " }\nmr" + id + "()"
 		case 9:
 			return pre + "m" + id + " = " + es[0] + " ?? " + es[1]
+		case 10:
+			// a script function with exactly as many parameters as arguments (the direct call path)
+			var ps []string
+			for i := range es {
+				ps = append(ps, "q"+strconv.Itoa(i))
+			}
+			return pre + "func s" + id + "(" + strings.Join(ps, ", ") + ") { p(" + id + ") }\ns" + id + "(" + strings.Join(es, ", ") + ")"
 		case 0:
 			return pre + strings.Join(names, ", ") + " = " + strings.Join(es, ", ")
 		case 1:
@@ -490,6 +504,29 @@ func (m *model) exec(n *Node, fr *frame) sig {
 		return sig{kind: 3}
 	case "continue":
 		return sig{kind: 4}
+	case "recdefer":
+		var walk func(k int) sig
+		walk = func(k int) sig {
+			return m.call(func(f *frame) sig {
+				kk := k
+				f.defers = append(f.defers, func() sig { return m.host("v:" + id + ":" + strconv.Itoa(kk)) })
+				if k > 0 {
+					if r := walk(k - 1); r.kind == 1 {
+						return r
+					}
+				}
+				return m.host("p:" + strconv.Itoa(n.Val))
+			})
+		}
+		if n.Var {
+			if r := walk(0); r.kind == 1 {
+				return r
+			}
+		}
+		if r := walk(n.N); r.kind == 1 {
+			return r
+		}
+		return sig{}
 	case "show-e":
 		return m.host("v:" + id + ":" + m.sharedE[len(m.sharedE)-1])
 	case "defer-loopvar":
@@ -525,7 +562,7 @@ func (m *model) exec(n *Node, fr *frame) sig {
 				return s
 			}
 		}
-		if n.N%nMulti == 4 {
+		if f := n.N % nMulti; f == 4 || f == 10 {
 			return m.host("p:" + id)
 		}
 		return sig{}
@@ -695,6 +732,8 @@ func (g *gen) stmt(c gctx) *Node {
 			return &Node{K: "ret", ID: id, Val: 10 + g.r.Intn(80)}
 		case k == 15 && g.r.Intn(4) == 0:
 			return &Node{K: "retvar", ID: id, Val: 10 + g.r.Intn(80)}
+		case k == 16 && g.r.Intn(3) == 0:
+			return &Node{K: "recdefer", ID: id, N: 1 + g.r.Intn(3), Var: g.r.Intn(2) == 0, Val: g.id()}
 		case k == 15 && c.showE && g.r.Intn(3) == 0:
 			return &Node{K: "show-e", ID: id}
 
